@@ -1,0 +1,20 @@
+//go:build verif
+
+package reorgdetector
+
+import "github.com/ethereum/go-ethereum/common"
+
+// VerifTracked returns the blocks tracked in memory for a subscriber, sorted by number (what a detection tick compares).
+func (rd *ReorgDetector) VerifTracked(id string) (nums []uint64, hashes []common.Hash) {
+	rd.trackedBlocksLock.RLock()
+	hdrs, ok := rd.trackedBlocks[id]
+	rd.trackedBlocksLock.RUnlock()
+	if !ok {
+		return nil, nil
+	}
+	for _, h := range hdrs.getSorted() {
+		nums = append(nums, h.Num)
+		hashes = append(hashes, h.Hash)
+	}
+	return nums, hashes
+}
